@@ -4,7 +4,10 @@ Lean phase (tier A): `Gen.IsimipFreq` regenerated from /repo = `Model.IsimipFreq
 Tier B: the real static helpers and the real `ISIMIP.step6` against the model driver `DrvIsimipFreq`.
 Property oracle on the real code: P in [0,1]; P = Po when Pf = Ph (outside np.isclose's tolerance of Ph ~ Po, where
 P = Ph); P = Pf when Ph = Po; rescaled counts sum to n and are >= 0; realised number of step6 outputs equal to the
-lower / upper bound = round(n * P) (guard: the mapped middle values are strictly inside the bounds).
+lower / upper bound = round(n * P) (guard: the mapped middle values are strictly inside the bounds); when the two counts
+over-claim, the realised counts are the PROPORTIONALLY rescaled ones (`rescaled_ok`, `Props.C11.scale_proportional`);
+in running-window mode the window of every `_apply_on_window` call is recomputed by the harness from each series' own
+time axis (`own_window_indices`; twin calendars: equal length and first day of year, leap years placed differently).
 """
 import contextlib
 import math
@@ -485,6 +488,16 @@ def run_step6(deb, obs, obsf, cmh, cmf):
     return np.asarray(out, dtype=float), rec, raw, exp
 
 
+def rescaled_ok(el, eu, n, cnt_lo, cnt_hi):
+    """The property's last clause — 'if both bounds would claim more values than exist [round(n*P_lower) +
+    round(n*P_upper) > n] the counts are RESCALED to sum to n' — on realised counts: they sum to n AND each is a nearest
+    integer of its proportional share l*n/(l+u) resp. u*n/(l+u) (with cnt_lo + cnt_hi = n the two distances are
+    equal, so whichever of the two the code rounds is accepted, and either side of an exact half).  Integer
+    arithmetic.  Quantifier covered: all frequency triples whose two adjusted counts over-claim, in particular the
+    ASYMMETRIC ones (a sum-to-n test alone accepts 'lower keeps its count, upper gets the remainder')."""
+    return cnt_lo + cnt_hi == n and cnt_lo >= 0 and cnt_hi >= 0 and 2 * abs(cnt_lo * (el + eu) - el * n) <= el + eu
+
+
 def step6_oracle(var, adj, deb, obs, obsf, cmh, cmf, out, rec, exp, problems, res, extra=None):
     """count of outputs equal to the bounds against round(n * P)"""
     n = cmf.size
@@ -506,6 +519,10 @@ def step6_oracle(var, adj, deb, obs, obsf, cmh, cmf, out, rec, exp, problems, re
         res.extra["step6_rescaled"] += 1
         if cnt_lo + cnt_hi != n:
             problems.append(("step6: both bounds claim more values than exist but the realised counts do not sum to n", {**case, **info}))
+        elif not rescaled_ok(el, eu, n, cnt_lo, cnt_hi):
+            problems.append(("step6: both bounds claim more values than exist but the realised counts are not the proportionally "
+                             "rescaled ones (nearest integers of l*n/(l+u), u*n/(l+u))",
+                             {**case, **info, "proportional_share_lower": el * n / (el + eu), "proportional_share_upper": eu * n / (el + eu)}))
         return
     n_mid = n - el - eu
     mid = rec.get("mid")
@@ -699,8 +716,10 @@ def _count_ok(deb, a, b, c, o):
         exp = expected_counts(deb, a, b, c)
     (el, Pl), (eu, Pu) = exp["lower"], exp["upper"]
     got = (int((o == lo).sum()), int((o == hi).sum()))
-    ok = (got[0] + got[1] == c.size) if el + eu > c.size else (got == (el, eu))
-    return ok, {"n": int(c.size), "P_lower": Pl, "P_upper": Pu, "round(n*P_lower)": el, "round(n*P_upper)": eu,
+    ok = rescaled_ok(el, eu, int(c.size), got[0], got[1]) if el + eu > c.size else (got == (el, eu))
+    if o.size != c.size:  # one output per cm_future value of the window
+        ok = False
+    return ok, {"n": int(c.size), "n_outputs": int(o.size), "P_lower": Pl, "P_upper": Pu, "round(n*P_lower)": el, "round(n*P_upper)": eu,
                 "outputs_at_lower_bound": got[0], "outputs_at_upper_bound": got[1]}
 
 
@@ -716,6 +735,30 @@ def _pipeline_times(fi):
             t = [d for d in t if a <= d.timetuple().tm_yday <= b]
         out.append(np.array(t, dtype=object))
     return out
+
+
+def own_days_of_year(t):
+    """day of year (1..366) of every time step, from the dates themselves (not ibicus.utils.day_of_year)"""
+    return np.array([d.timetuple().tm_yday for d in t], dtype=int)
+
+
+def own_window_indices(doy, center, length):
+    """The property's 'window' in running-window mode, computed by the harness from the time axis that was passed in
+    (NOT with the debiaser's RunningWindowOverDaysOfYear, whose answers — and any state it keeps between calls — are
+    what is being judged): all time steps whose day of year lies in [center - length//2, center + length//2],
+    wrapping at the year boundary over the days 1..366."""
+    wanted = set()
+    for d in range(int(center) - length // 2, int(center) + length // 2 + 1):
+        d %= 366
+        wanted.add(366 if d == 0 else d)
+    return np.where(np.isin(doy, sorted(wanted)))[0]
+
+
+def _shift_year(iso, k):
+    import datetime
+
+    d = datetime.date.fromisoformat(iso)
+    return d.replace(year=d.year + k, day=min(d.day, 28) if d.month == 2 else d.day).isoformat()
 
 
 def counts_cmp(nl, nu, res):
@@ -740,11 +783,9 @@ def _pipeline_run(fi, problems, res, cs=None):
     serial `apply` / parallel `apply`, with the windows (calendar months, or running windows with length = step on
     data without year wrap) computed by the harness from the time axes that were passed in and P from the ORIGINAL
     series.  Guard as everywhere: the mapped middle values (recorded in the serial run) are strictly inside the bounds."""
-    from ibicus.utils import day_of_year
-
     var, adj, mode = fi["variable"], fi["adjust"], fi["mode"]
     kw = {"running_window_mode": False} if mode == "month" else {
-        "running_window_mode": True, "running_window_length": fi["window"], "running_window_step_length": fi["window"]}
+        "running_window_mode": True, "running_window_length": fi["window"], "running_window_step_length": fi.get("step", fi["window"])}
     with warnings.catch_warnings():
         warnings.simplefilter("ignore")
         deb = (seq_deb(var, adj, **kw) if fi.get("sequence") else
@@ -767,6 +808,17 @@ def _pipeline_run(fi, problems, res, cs=None):
         return np.asarray(o, dtype=float)
 
     serial_path = "apply_location" if fi["path"] == "apply_location" else "apply"
+    if fi.get("prior_call"):
+        # call SEQUENCE on one instance: before the judged call the same debiaser is applied to series of the same
+        # lengths on OTHER calendars (start years shifted: same first day of year, other placement of the leap years).
+        # Nothing the instance remembers about the earlier time axes may enter the windows of the judged call.
+        fp = {**fi, "start": [_shift_year(s, k) for s, k in zip(fi["start"], fi["prior_call"]["year_shift"])]}
+        tp = _pipeline_times(fp)
+        if [t.size for t in tp] == [t_o.size, t_h.size, t_f.size]:
+            with warnings.catch_warnings(), np.errstate(all="ignore"):
+                warnings.simplefilter("ignore")
+                np.random.seed(fi["numpy_seed"])
+                deb.apply_location(obs.copy(), cmh.copy(), cmf.copy(), *tp)
     calls = []
     with recording_windows(calls):
         out = call(serial_path)
@@ -790,6 +842,36 @@ def _pipeline_run(fi, problems, res, cs=None):
                              {**short, "window_call": k, "window_obs_hist": c["in"][0].tolist(), "window_cm_hist": c["in"][1].tolist(),
                               "window_cm_future": c["in"][2].tolist(), **info}))
             return
+    if mode != "month":
+        # (1b) running-window mode, ANY step length: the k-th `_apply_on_window` call is the window around the k-th
+        # centre.  Its outputs must carry round(n * P) values at the bounds with P from the ORIGINAL series restricted
+        # to the window the HARNESS computes from each series' own time axis (`own_window_indices`) — the clause 'P is
+        # computed from the obs, cm_hist and cm_future frequencies [of that window]' for all calendars, in particular
+        # time axes of equal length and equal first day of year whose leap years are placed differently.  The centres
+        # come from a fresh RunningWindowOverDaysOfYear (their choice is C08's subject), never from the debiaser's own.
+        L = int(fi["window"])
+        doy = [own_days_of_year(t) for t in (t_o, t_h, t_f)]
+        with warnings.catch_warnings():
+            warnings.simplefilter("ignore")
+            rw = type(deb.running_window)(window_length_in_days=L, window_step_length_in_days=int(fi.get("step", L)))
+            centres = [(int(c), np.asarray(idx)) for c, idx in rw.use(doy[2])]
+        if len(centres) != len(calls):
+            res.extra["pipeline_centre_mismatch"] = res.extra.get("pipeline_centre_mismatch", 0) + 1
+        else:
+            for k, ((c, _), call_k) in enumerate(zip(centres, calls)):
+                if not all(lo < v < hi for m in call_k["mids"] for v in m.tolist()):
+                    continue  # outside the guard of the realised-count clause
+                io, ih, iff = (own_window_indices(d, c, L) for d in doy)
+                if min(len(io), len(ih), len(iff)) == 0:
+                    continue
+                res.extra["pipeline_own_windows"] = res.extra.get("pipeline_own_windows", 0) + 1
+                ok, info = _count_ok(deb, obs[io], cmh[ih], cmf[iff], call_k["out"])
+                if not ok:
+                    problems.append((f"{serial_path} (running-window mode): outputs of the window around day {c} at the lower/upper bound != "
+                                     "round(n * P) of the original series in that window (window = the time steps of each series whose "
+                                     "day of year lies within length//2 of the centre, from the time axes passed in)",
+                                     {**short, "dispatch": serial_path, "window_call": k, "window_name": f"window centre {c}", **info}))
+                    return
     if not guard or not calls:
         res.extra["pipeline_guard_excluded"] = res.extra.get("pipeline_guard_excluded", 0) + 1
         return
@@ -798,17 +880,12 @@ def _pipeline_run(fi, problems, res, cs=None):
         mon = [np.array([d.month for d in t]) for t in (t_o, t_h, t_f)]
         windows = [(f"month {m}", np.where(mon[0] == m)[0], np.where(mon[1] == m)[0], np.where(mon[2] == m)[0]) for m in range(1, 13)]
     else:
-        with warnings.catch_warnings():
-            warnings.simplefilter("ignore")
-            doy = [day_of_year(t) for t in (t_o, t_h, t_f)]
-            rw = deb.running_window
-            windows = []
-            for c, idx in rw.use(doy[2]):
-                wf = rw.get_indices_vals_in_window(doy[2], c)
-                if set(map(int, idx)) != set(map(int, wf)):
-                    continue  # a window that is larger than what it adjusts: its count is not observable in the output
-                windows.append((f"window centre {int(c)}", rw.get_indices_vals_in_window(doy[0], c),
-                                rw.get_indices_vals_in_window(doy[1], c), np.asarray(idx)))
+        windows = []
+        for c, idx in centres:
+            wf = own_window_indices(doy[2], c, L)
+            if set(map(int, idx)) != set(map(int, wf)):
+                continue  # a window that is larger than what it adjusts: its count is not observable in the output
+            windows.append((f"window centre {c}", own_window_indices(doy[0], c, L), own_window_indices(doy[1], c, L), idx))
     outs = [(serial_path, out)]
     if fi["path"] == "apply-parallel":
         outs.append(("apply-parallel", call("apply-parallel")))
@@ -822,7 +899,7 @@ def _pipeline_run(fi, problems, res, cs=None):
             if not ok:
                 problems.append((f"{path} ({mode} mode): outputs at the lower/upper bound in a window != round(n * P) of the "
                                  "original series in that window (windows from the time axes passed in)",
-                                 {**short, "dispatch": path, "window": name, **info}))
+                                 {**short, "dispatch": path, "window_name": name, **info}))
                 return
 
 
@@ -885,6 +962,166 @@ def pipeline_cases(rng, count, problems, res, cs=None):
             res.extra["pipeline_skipped"] += 1
             problems.append((f"{path} ({mode} mode) raises {type(ex).__name__} on well-formed series ({str(ex)[:100]})",
                              {**fi, "exception": type(ex).__name__}))
+
+
+def twin_calendar_cases(rng, count, problems, res):
+    """Quantifier: 'all series … and lengths' on ALL calendars — here the ones the free generator (independent random
+    lengths) practically never draws: two or all three of obs / cm_hist / cm_future have the SAME number of time steps
+    and start on the same day of the year in different years, so their leap years — hence their days of year — are
+    placed differently (1980-01-01 + 3 years against 1981-01-01 + 3 years; a 30-year reference against a 30-year
+    scenario period).  Full years (windows wrap over the year boundary), running-window mode with step < length (the
+    library's default shape 31 / 1 included) and month mode; optionally the same instance has served other calendars
+    of the same lengths before.  Judged by `_pipeline_run` (1b)/(2) with windows computed by the harness."""
+    import datetime
+
+    for key in ("pipeline_runs", "pipeline_skipped", "twin_calendar_runs"):
+        res.extra.setdefault(key, 0)
+    for i in range(count):
+        var = VARS[i % 3]
+        adj = 0 if rng.random() < 0.2 else 1
+        mode = "month" if i % 5 == 4 else "window"
+        path = "apply" if i % 3 == 2 else "apply_location"
+        coarse = rng.random() < 0.25
+        fi = {"kind": "pipeline", "coarse_resolution": coarse, "variable": var, "adjust": adj, "sequence": False, "mode": mode, "path": path,
+              "near": None, "numpy_seed": rng.randint(0, 2**31 - 1)}
+        twins = rng.choice([(0, 1), (0, 2), (1, 2), (0, 1, 2), (0, 1, 2)])
+        md = rng.choice([(1, 1), (1, 1), (1, 1), (3, 1), (7, 1), (rng.randint(1, 12), rng.randint(1, 28))])
+        n_twin = rng.choice([730, 731, 1095, 1096, 1461, rng.randint(740, 1090)])
+        y0 = [rng.choice([1979, 1980]), rng.choice([1981, 1982, 1983]), rng.choice([2049, 2050, 2051])]
+        fi["start"] = [datetime.date(y, *(md if k in twins else rng.choice([(1, 1), (10, 1), (rng.randint(1, 12), rng.randint(1, 28))]))).isoformat()
+                       for k, y in enumerate(y0)]
+        fi["n_days"] = [n_twin if k in twins else rng.randint(730, 1100) for k in range(3)]
+        if mode == "window":
+            fi["window"], fi["step"] = rng.choice([(31, 1), (31, 5), (31, 9), (15, 3), (45, 15), (61, 7), (31, 31)])
+        if rng.random() < 0.35:
+            fi["prior_call"] = {"year_shift": [rng.choice([1, 2, 3]) for _ in range(3)]}
+        times = _pipeline_times(fi)
+        with warnings.catch_warnings():
+            warnings.simplefilter("ignore")
+            deb = _deb(var, adj)
+        two = has_ut(deb)
+        # beyond-threshold frequency varying from week to week (a window that is off by a day sees other values)
+        for name, t, sc in zip(("obs", "cm_hist", "cm_future"), times, [1.0, rng.choice([0.7, 1.0, 1.3]), rng.choice([0.8, 1.2, 1.5])]):
+            base_lo = rng.choice([0.15, 0.3, 0.45])
+            amp = rng.choice([0.1, 0.3, 0.5])
+            block = rng.choice([5, 7, 16, 30, 45])
+            base_hi = rng.choice([0.0, 0.05, 0.2]) if two else 0.0
+            doy = own_days_of_year(t)
+            x = np.zeros(t.size)
+            for b in range(0, 366 // block + 1):
+                idx = np.where(doy // block == b)[0]
+                if idx.size:
+                    x[idx] = gen_series(rng, var, deb, idx.size, min(0.95, max(0.0, base_lo + amp * (1 if b % 2 else -1) * base_lo / 0.45)), base_hi,
+                                        wet_scale=sc, coarse=coarse and (name == "cm_future" or rng.random() < 0.5))
+            fi[name] = x.tolist()
+        try:
+            _pipeline_run(fi, problems, res)
+            res.extra["pipeline_runs"] += 1
+            res.extra["twin_calendar_runs"] += 1
+            res.count(("twin-calendar", var, adj, mode, fi.get("step"), len(twins), bool(fi.get("prior_call"))), True,
+                      sample={k: v for k, v in fi.items() if not isinstance(v, list) or k in ("start", "n_days")})
+        except Exception as ex:  # noqa: BLE001
+            if not raised_in_real_code(ex):
+                raise
+            res.extra["pipeline_skipped"] += 1
+            problems.append((f"{path} ({mode} mode, twin calendars) raises {type(ex).__name__} on well-formed series ({str(ex)[:100]})",
+                             {**fi, "exception": type(ex).__name__}))
+
+
+# ------------------------------------------------------------------ 6b. over-claiming frequencies on double-bounded variables
+TWO_SIDED = ("hurs", "prsnratio", "tasskew")
+
+
+def _window_run(fi, problems, res):
+    """one `_apply_on_window` call (steps 3-7 of one window) on given series: count clause incl. the rescaling clause"""
+    var, adj = fi["variable"], fi["adjust"]
+    deb = _deb(var, adj)
+    obs, cmh, cmf = (np.array(fi[k], dtype=float) for k in ("obs_hist", "cm_hist", "cm_future"))
+    lo, hi = float(deb.lower_bound), float(deb.upper_bound)
+    calls = []
+    np.random.seed(fi["numpy_seed"])
+    with warnings.catch_warnings(), np.errstate(all="ignore"):
+        warnings.simplefilter("ignore")
+        with recording_windows(calls):
+            deb._apply_on_window(obs.copy(), cmh.copy(), cmf.copy())
+    c = calls[0]
+    if not all(lo < v < hi for m in c["mids"] for v in m.tolist()):
+        res.extra["window_guard_excluded"] = res.extra.get("window_guard_excluded", 0) + 1
+        return None
+    ok, info = _count_ok(deb, obs, cmh, cmf, c["out"])
+    if not ok:
+        rescale = info["round(n*P_lower)"] + info["round(n*P_upper)"] > info["n"]
+        problems.append(("_apply_on_window: outputs at the lower/upper bound != " +
+                         ("the proportionally rescaled counts (both bounds claim more values than exist)" if rescale else "round(n * P)"),
+                         {**fi, **info}))
+    return info
+
+
+def overclaim_cases(rng, count, nmax, problems, res):
+    """Quantifier: 'all triples of frequencies in [0,1]^3' — per BOUND, i.e. for a variable with two thresholds all
+    PAIRS of triples, including those whose two adjusted counts together exceed n (many saturated values at both
+    ends, cm_hist less saturated than obs), lower and upper share UNEQUAL; frequency adjustment off with a fully
+    saturated obs (over-claim by rounding alone: n odd, both halves round up).  Judged on the real `step6` and on the
+    real `_apply_on_window` by the rescaling clause `rescaled_ok`."""
+    for key in ("overclaim_runs", "overclaim_rescaled", "step6_runs", "step6_exceptions", "step6_rescaled", "step6_guard_excluded"):
+        res.extra.setdefault(key, 0)
+    for i in range(count):
+        var = TWO_SIDED[i % 3]
+        adj = 0 if i % 7 == 6 else 1
+        deb = _deb(var, adj)
+        n_o, n_h, n_f = (rng.randint(5, nmax) for _ in range(3))
+        if adj:
+            s_o = rng.choice([0.6, 0.8, 0.9, 1.0])          # saturated share of obs, split unequally between the bounds
+            w = rng.choice([0.1, 0.25, 0.4, 0.5, 0.6, 0.75, 0.9])
+            f_o = (s_o * w, s_o * (1 - w))
+            q = rng.choice([0.0, 0.2, 0.5, 0.8])           # cm_hist less saturated than obs (not necessarily on both sides)
+            q2 = rng.choice([q, q, 0.0, 1.0])
+            f_h = (f_o[0] * q, f_o[1] * q2)
+            s_f = rng.choice([0.5, 0.7, 0.9, 1.0])
+            w_f = rng.choice([w, 0.2, 0.5, 0.8])
+            f_f = (s_f * w_f, s_f * (1 - w_f))
+        else:
+            w = rng.choice([0.5, 0.5, 0.3, 0.7])
+            f_o = (w, 1 - w)
+            f_h, f_f = (rng.choice(FRACS) * 0.5, rng.choice(FRACS) * 0.5), (rng.choice(FRACS) * 0.5, rng.choice(FRACS) * 0.5)
+        obs = gen_series(rng, var, deb, n_o, *f_o)
+        cmh = gen_series(rng, var, deb, n_h, *f_h, wet_scale=rng.choice([1.0, 0.8]))
+        cmf = gen_series(rng, var, deb, n_f, *f_f, wet_scale=rng.choice([1.0, 1.2]))
+        case = {"variable": var, "adjust": adj, "kind": "overclaim", "n": [n_o, n_h, n_f],
+                "frac_beyond": [list(map(float, f_o)), list(map(float, f_h)), list(map(float, f_f))]}
+        res.extra["overclaim_runs"] += 1
+        if i % 2 == 0:  # the public step: step6 with pseudo-future observations
+            obsf = gen_series(rng, var, deb, max(n_o, 4), min(f_o[0], 0.7), min(f_o[1], 0.2))
+            try:
+                out, rec, raw, exp = run_step6(deb, obs, obsf, cmh, cmf)
+            except Exception as ex:  # noqa: BLE001
+                if not raised_in_real_code(ex):
+                    raise
+                res.extra["step6_exceptions"] += 1
+                problems.append((f"step6 raises {type(ex).__name__} on well-formed series ({str(ex)[:100]})",
+                                 {"kind": "step6", "variable": var, "adjust": adj, "obs_hist": obs.tolist(), "obs_future": obsf.tolist(),
+                                  "cm_hist": cmh.tolist(), "cm_future": cmf.tolist(), "exception": type(ex).__name__}))
+                continue
+            res.extra["step6_runs"] += 1
+            step6_oracle(var, adj, deb, obs, obsf, cmh, cmf, out, rec, exp, problems, res)
+            el, eu = exp["lower"][0], exp["upper"][0]
+        else:  # the whole window
+            fi = {"kind": "window", "variable": var, "adjust": adj, "numpy_seed": rng.randint(0, 2**31 - 1),
+                  "obs_hist": obs.tolist(), "cm_hist": cmh.tolist(), "cm_future": cmf.tolist()}
+            try:
+                info = _window_run(fi, problems, res)
+            except Exception as ex:  # noqa: BLE001
+                if not raised_in_real_code(ex):
+                    raise
+                problems.append((f"_apply_on_window raises {type(ex).__name__} on well-formed series ({str(ex)[:100]})",
+                                 {**fi, "exception": type(ex).__name__}))
+                continue
+            if info is None:
+                continue
+            el, eu = info["round(n*P_lower)"], info["round(n*P_upper)"]
+        over = el + eu > n_f
+        res.extra["overclaim_rescaled"] += over
+        res.count(("overclaim", var, adj, i % 2, over, (el > eu) - (el < eu), min(n_f, 12)), over, sample=case)
 
 
 # ------------------------------------------------------------------ 7. missing values: two encodings of the same data
@@ -969,7 +1206,7 @@ def _masked_run(fi, problems, res):
             (el, Pl), (eu, Pu) = exp["lower"], exp["upper"]
             o = out[mon[2] == m, 0, 0]
             got = (int((o == lo).sum()), int((o == hi).sum()))
-            ok = (got[0] + got[1] == n_m) if el + eu > n_m else (got == (el, eu))
+            ok = rescaled_ok(el, eu, n_m, got[0], got[1]) if el + eu > n_m else (got == (el, eu))
             if not ok:
                 problems.append(("apply with missing values (" + which + " encoding): outputs at the lower/upper bound in a month != "
                                  "round(n * P) of the valid cells' frequencies",
@@ -1078,6 +1315,9 @@ def run(tier, res, force_search=False):
     mask_cases(12, cs, problems, res)
     step6_cases(rng, (180 if quick else 2400) * boost, 80 if quick else 400, cs, problems, res)
     pipeline_cases(rng, 12 if quick else 72, problems, res, cs)
+    # own random streams (the cases above keep theirs): over-claiming pairs of frequency triples; twin calendars
+    overclaim_cases(random.Random(C.seed() * 104729 + 1111), (90 if quick else 900) * boost, 80 if quick else 300, problems, res)
+    twin_calendar_cases(random.Random(C.seed() * 104729 + 1112), (5 if quick else 30) * boost, problems, res)
 
     mismatches = []
     try:
@@ -1112,6 +1352,8 @@ def run(tier, res, force_search=False):
         mismatches = mismatches + isi[:5]
     if mismatches or not lean_ok or force_search:  # a tie is broken: widen the end-to-end search
         pipeline_cases(rng, 24 if quick else 144, problems, res)
+        if not problems:
+            twin_calendar_cases(random.Random(C.seed() * 104729 + 1113), 6 if quick else 36, problems, res)
     masked_cases(rng, 2 if quick else 12, problems, res)
     if (mismatches or not lean_ok) and not problems:  # a tie is broken: widen the failing-input search on the real code
         cs2 = Cases()
@@ -1197,8 +1439,17 @@ def replay(data):
         except Exception as ex:  # noqa: BLE001
             print(f"mask({fi['nr']}, {x.tolist()}) raises {type(ex).__name__}")
             problems.append(("mask", fi))
-    elif kind == "pipeline":
-        _pipeline_run(fi, problems, res)
+    elif kind in ("pipeline", "window"):
+        try:
+            if kind == "pipeline":
+                _pipeline_run({k: v for k, v in fi.items() if k != "exception"}, problems, res)
+            else:
+                print(f"_apply_on_window[{fi['variable']}]: {_window_run(fi, problems, res)}")
+        except Exception as ex:  # noqa: BLE001
+            if not raised_in_real_code(ex):
+                raise
+            print(f"the real code raises {type(ex).__name__}: {str(ex)[:200]}")
+            problems.append((f"raises {type(ex).__name__} on well-formed series", fi))
     else:
         print("unknown failing-input kind", kind)
         return 2
